@@ -202,30 +202,53 @@ theorem toerror_witnesses :
     toErrorWf {} [⟨[], 0⟩] = false ∧ toErrorWf {} [⟨errName, 0⟩] = false ∧ toErrorWf {} [⟨['f'], 0⟩] = false ∧
     toErrorWf Plumb.Cfg.fixed [⟨[], 0⟩] = true ∧ toErrorWf Plumb.Cfg.fixed [⟨errName, 0⟩] = true := by decide
 
-/-! ### which types count as `error` (`derive.IsError`) -/
+/-! ### which types count as `error` (`derive.IsError` / `derive.ImplementsError`) -/
 
-/-- whatever the generator accepts where an `error` is expected does implement `error` — except a type
-whose `Error` method has a pointer receiver and which is used by value (side condition; gone with
-`errRecvFixed`) -/
-theorem isError_sound_partial (cfg : Cfg) (t : ErrTy) (h : isError cfg t = true)
-    (hs : cfg.errRecvFixed = true ∨ t ≠ .namedPtrRecv) : implementsError t = true := by
-  cases t <;> simp_all [isError, implementsError]
+/-- whatever the generator accepts, at any position, is served by a helper that compiles — under the
+side condition of the model variant: result types are checked for identity with `error`
+(`errTypeFixed`), and values are not accepted on the strength of a pointer-receiver method
+(`errRecvFixed`; for join's argument `typedNilFixed` does it as well) -/
+theorem isError_sound_partial (cfg : Cfg) (pos : ErrPos) (t : ErrTy) (h : isError cfg pos t = true)
+    (hr : pos = .result → cfg.errTypeFixed = true ∨ t = .builtin)
+    (hj : pos = .joinArg → cfg.typedNilFixed = true ∨ t ≠ .namedPtrRecv)
+    (ht : pos = .toErrorArg → cfg.errRecvFixed = true ∨ t ≠ .namedPtrRecv) :
+    compilesAt pos t = true := by
+  obtain ⟨z, l, e, r, n⟩ := cfg
+  cases e <;> cases r <;> cases n <;> cases pos <;> cases t <;>
+    first
+    | rfl
+    | (exfalso; revert h; simp [isError, isErrorScan, implementsError]; done)
+    | (have := hr rfl; simp at this; done)
+    | (have := hj rfl; simp at this; done)
+    | (have := ht rfl; simp at this; done)
 
-example : isError {} .namedNilable = true ∧ implementsError .namedNilable = true := by decide
+example : isError {} .toErrorArg .namedNilable = true ∧ compilesAt .toErrorArg .namedNilable = true := by decide
 
-/-- today: the pointer-receiver type is accepted although it does not implement error; an accepted
-custom error type in RESULT position gives a helper that cannot be called (its parameter type says
-`error`); `*E` and named interfaces are refused although they implement error (clean refusal); a nil
-custom error handed to join is a non-nil `error`: `f` is not called and zero values come back with a
-non-nil error, where the specification runs `f` -/
+/-- with the three repairs the generator serves exactly what it should, at every position, for every type -/
+theorem isError_fixed (cfg : Cfg) (h1 : cfg.errTypeFixed = true) (h2 : cfg.errRecvFixed = true)
+    (h3 : cfg.typedNilFixed = true) (pos : ErrPos) (t : ErrTy) :
+    isError cfg pos t = shouldAccept pos t ∧ (isError cfg pos t = true → compilesAt pos t = true) := by
+  obtain ⟨z, l, e, r, n⟩ := cfg
+  subst h1 h2 h3
+  cases pos <;> cases t <;> simp [isError, shouldAccept, compilesAt, implementsError]
+
+example : isError Cfg.fixed .toErrorArg .pointerToNamed = true ∧ isError Cfg.fixed .result .namedNilable = false := by decide
+
+/-- before the repairs: a pointer-receiver type was accepted by value; a custom error type in RESULT
+position was accepted although the helper's parameter says `error`; `*E` was refused by toerror; and a
+nil custom error handed to join arrived as a non-nil `error` (`f` not called, zero values and a
+non-nil error come back, where the specification runs `f`) -/
 theorem isError_witnesses :
-    isError {} .namedPtrRecv = true ∧ implementsError .namedPtrRecv = false ∧
-    isError {} .namedNilable = true ∧ resultPosCompiles {} .namedNilable = false ∧
-    isError {} .namedStruct = true ∧ resultPosCompiles {} .namedStruct = false ∧
-    isError {} .pointerToNamed = false ∧ implementsError .pointerToNamed = true ∧
-    isError {} .nearMiss = false ∧ implementsError .nearMiss = false ∧
-    isError Cfg.fixed .namedPtrRecv = false ∧ resultPosCompiles Cfg.fixed .namedNilable = true ∧
+    isError {} .toErrorArg .namedPtrRecv = true ∧ compilesAt .toErrorArg .namedPtrRecv = false ∧
+    isError {} .result .namedNilable = true ∧ compilesAt .result .namedNilable = false ∧
+    isError {} .result .namedStruct = true ∧ compilesAt .result .namedStruct = false ∧
+    isError {} .toErrorArg .pointerToNamed = false ∧ shouldAccept .toErrorArg .pointerToNamed = true ∧
+    isError {} .joinArg .namedNilable = true ∧ shouldAccept .joinArg .namedNilable = false ∧
+    isError {} .toErrorArg .nearMiss = false ∧
     joinE [0] ⟨fun _ => ([5], (none : Option Nat))⟩ (some 999) ≠ joinESpec [0] ⟨fun _ => ([5], none)⟩ none := by decide
+
+/-- toerror hands back exactly the supplied error value, also when that value is a typed nil -/
+example : toError 999 (fun a => (a, false)) [1] = { res := [1], err := some 999, log := [(0, [1])] } := by decide
 
 /-! ### zero values -/
 
